@@ -1,5 +1,6 @@
 import Ogen.OptNilStates_proof
 import Ogen.JsonCodec_proof
+import Ogen.JsonAccept_proof
 import Ogen.Generated.Facts_tmpl
 /-!
 # C04 — JSON encoding of generated types round-trips and conforms to the schema (partial)
@@ -66,12 +67,19 @@ theorem codec_accepts_iff_valid (j : Json) (t : Ty) (hw : t.WF) (hu : UniqueKeys
     (JCodec.decode t j).isSome ↔ Valid t j := JCodec.accept_iff j t hw hu
 open JCodec in
 /-- the decoder builds only values of the type: `omitted` only for optional members, `null` only for nullable ones -/
-theorem codec_decodes_only_values (j : Json) (t : Ty) (v : Val) (h : JCodec.decode t j = some v) : WT t v :=
-  JCodec.decode_wt j t v h
+theorem codec_decodes_only_values (j : Json) (t : Ty) (v : Val) (hw : t.WF) (h : JCodec.decode t j = some v) : WT t v :=
+  JCodec.decode_wt j t v hw h
 open JCodec in
 /-- decoding is canonical -/
 theorem codec_canonical (t : Ty) (j : Json) (v : Val) (hw : t.WF) (h : JCodec.decode t j = some v) :
     JCodec.decode t (JCodec.encode t v) = some v := JCodec.decode_canonical t j v hw h
+
+open JCodec in
+/-- what a decoded object holds, field by field: what the member of that name decodes to, the schema default when
+    the member is absent and has one, `omitted` when it is absent and optional -/
+theorem codec_decoded_fields (closed : Bool) (fs : List Field) (kvs : List (String × Json)) (st : List Val)
+    (hn : (names fs).Nodup) (hk : (JEqG.keys kvs).Nodup) (h : JCodec.decode (.obj closed fs) (.obj kvs) = some (.obj st)) :
+    st = fs.map (fieldState kvs) := JCodec.decoded_fields closed fs kvs st hn hk h
 
 /-- the struct itself does not round-trip (why the comparison goes through `state`) -/
 theorem struct_not_preserved : decode 0 (encode (⟨true, true, 5⟩ : W Nat)) ≠ ⟨true, true, 5⟩ := by decide
